@@ -488,6 +488,12 @@ def run(ctx):
     # ---- the policy lists are what the control files say
     from rules import C10
     r5c = rep.rule('C08.5-policy-lists', 'R-TABLE', 'control_readfile(): badmailfrom / rcpthosts hold exactly the non-empty, non-comment lines of their files, including an unterminated last line')
+    # the list lookups end in case_diffb(); the domain part is found with byte_rchr()
+    from rules import libtab as _lt
+    for inst_, v_ in sorted(_lt.case_diffb_sites(db, rep, prog).items()):
+        r5c.check(v_[0], inst_, v_[1], v_[2], v_[3])
+    for inst_, v_ in sorted(_lt.byte_rchr_sites(db, rep, prog).items()):
+        r5c.check(v_[0], inst_, v_[1], v_[2], v_[3])
     for inst, v in sorted(C10.control_file_sites(db, rep, prog).items()):
         r5c.check(v[0], inst, v[1], v[2], v[3])
     r5c.expect_min(1)
